@@ -92,10 +92,15 @@ impl Header {
         // value, so a future REPE revision can assign meaning to these bits
         // without breaking this receiver.
 
-        let expected = HEADER_SIZE as u64 + query_length + body_length;
-        if length != expected {
+        // The three lengths are untrusted 64-bit wire values: their sum can
+        // exceed `u64::MAX`, so add with overflow checks. A sum that does not
+        // fit can never equal the declared `length`.
+        let expected = (HEADER_SIZE as u64)
+            .checked_add(query_length)
+            .and_then(|v| v.checked_add(body_length));
+        if expected != Some(length) {
             return Err(RepeError::LengthMismatch {
-                expected,
+                expected: expected.unwrap_or(u64::MAX),
                 got: length,
             });
         }
